@@ -206,7 +206,7 @@ static void tb_inputs(struct TbfSpacialConfiguration *cfg, struct std_array_doub
   for(long p = 0; p < CFG_NP; ++p) { g_poscode[p] = CFG_POSCODE(p); in[p].d[0] = POSOF(g_poscode[p]); in[p].d[1] = 100.0 + p; g_count[leaf_of_code(g_poscode[p])]++; }
   parts->data = in; parts->size = CFG_NP; parts->cap = NPMAX;
 }
-/*@ harness bounded_build plain=1 flags=max-field-sensitivity-array-size:4096 enumerate=build unwind=UNW bounded=1-D,height3,<=4-particles-on-a-9-point-grid,blocksize1..3,both-modes defs=REAL_TREE props=C06,C07,C15 timeout=1500 */
+/*@ harness bounded_build plain=1 flags=max-field-sensitivity-array-size:4096 enumerate=build unwind=UNW bounded=1-D,height3,<=4-particles-on-a-9-point-grid,blocksize1..3,both-modes defs=REAL_TREE props=C06,C07,C08,C15 timeout=1500 */
 void bounded_build(void)
 {
   struct TbfSpacialConfiguration cfg; struct std_array_double_2 in[NPMAX]; struct std_vector_std_array_double_2 parts;
@@ -216,7 +216,7 @@ void bounded_build(void)
   check_tree(&t, in, CFG_NP, CFG_BS, CFG_MODE, 1);
   CANARY();
 }
-/*@ harness bounded_rebuild plain=1 flags=max-field-sensitivity-array-size:4096 enumerate=build unwind=UNW bounded=1-D,height3,<=4-particles-on-a-9-point-grid,blocksize1..3,both-modes,one-particle-moved defs=REAL_TREE props=C13,C07,C15 timeout=1500 */
+/*@ harness bounded_rebuild plain=1 flags=max-field-sensitivity-array-size:4096 enumerate=build unwind=UNW bounded=1-D,height3,<=4-particles-on-a-9-point-grid,blocksize1..3,both-modes,one-particle-moved defs=REAL_TREE props=C13,C07,C08,C15 timeout=1500 */
 void bounded_rebuild(void)
 {
   struct TbfSpacialConfiguration cfg; struct std_array_double_2 in[NPMAX]; struct std_vector_std_array_double_2 parts;
